@@ -530,6 +530,17 @@ def to_labels(obs):
     put_time = {}       # entry name -> virtual time of its put
     workers_made = [not obs.get('handshake')]
 
+    # a handshake case: an `update` of a parameter is consumed before the matching code only once the description has been
+    # installed (connect() back from its wait for the reply to `describe`, with a `describing` line); the driver is told
+    # `known = []` for these cases and the flag is set here, line by line
+    descr = {'entry': None, 'at': None}
+
+    def consumed(text, at):
+        if not obs.get('handshake') or descr['at'] is None or at < descr['at']:
+            return False
+        a, sp, _ = split_line(text)
+        return a in ('update', 'error_update') and sp in KNOWN_IDENTS
+
     def carries(entry, evname):
         return ent_ev.get(entry, entry) == evname
 
@@ -582,6 +593,8 @@ def to_labels(obs):
             req = e[4] or [None, None]
             puts[th] = (ids[name], len(labels), name)
             put_time[name] = times[ei]
+            if obs.get('handshake') and req[0] == 'describe' and descr['entry'] is None:
+                descr['entry'] = name
             if th in open_call:
                 k, multi = open_call[th]
                 callers[k].update(id=ids[name], putAt=len(labels), entry=name)
@@ -620,7 +633,7 @@ def to_labels(obs):
             re_id = None
             if re_idx is not None and re_idx < len(obs.get('sent_entries', [])):
                 re_id = obs['sent_entries'][re_idx]
-            labels.append(['peerEmit', action, spec, line_is_bad(text), ('re', re_idx)])
+            labels.append(['peerEmit', action, spec, line_is_bad(text) or consumed(text, ei), ('re', re_idx)])
             labels.append(['rxRead'])
             cur['seq'] = mseq
             rx.update(line=True, mode=None, found=None, fails=0, took=[])
@@ -686,6 +699,10 @@ def to_labels(obs):
                 labels.append(['selfRelease', ids[puts[th][2]]])
             else:
                 notes.append(f'unexplained event.set of {name} by {th}')
+        elif kind == 'ev.wait' and descr['entry'] is not None and descr['at'] is None and e[3] and carries(descr['entry'], e[2]):
+            q = impl_deliv.get(descr['entry'])
+            if q is not None and split_line(seqs[q])[0] == 'describing':
+                descr['at'] = ei
         elif kind == 'l.append' and e[2] == 'cleanup':
             if e[3] in ids:
                 labels.append(['timeout', ids[e[3]]])
@@ -759,8 +776,13 @@ def to_labels(obs):
             uid = None
             for q, text in seqs.items():
                 a, sp, data = split_line(text)
-                if a.startswith('error_') and ('"u%s"' % _uid_of_error(out) in data):
-                    uid = q
+                if a.startswith('error_'):
+                    try:
+                        msg = json.loads(data)[1]
+                    except (ValueError, IndexError, KeyError, TypeError):
+                        continue
+                    if msg == out.get('text'):      # (every line of a script is unique)
+                        uid = q
             if uid is None:
                 rec['out'] = 'conn'          # error raised by connect(): the connection could not be re-established
             else:
@@ -782,7 +804,8 @@ def to_labels(obs):
     for e in ev[start + 1:]:
         if e[1] == 'c.emit' and e[2] == 0 and not e[7] and (limit is None or e[5] <= limit):
             a, sp, _ = split_line(e[4])
-            arrivals.append([a, sp, line_is_bad(e[4]), sent[e[6]] if e[6] is not None and e[6] < len(sent) else None,
+            at = len(ev) if descr['at'] is not None and e[5] >= times[descr['at']] else -1
+            arrivals.append([a, sp, line_is_bad(e[4]) or consumed(e[4], at), sent[e[6]] if e[6] is not None and e[6] < len(sent) else None,
                              int(max(0.0, e[5] - t0) * 1000)])
     return {'labels': labels, 'callers': cobs, 'closedAt': closed_at, 'ids': ids, 'seqs': seqs, 'notes': notes,
             'arrivals': arrivals}
@@ -1463,7 +1486,7 @@ def requests_for(case, obs, schedule):
     L = to_labels(obs)
     if L is None:
         return None
-    base = {'p': 'C11', 'known': KNOWN_IDENTS, 'labels': L['labels']}
+    base = {'p': 'C11', 'known': [] if case.get('handshake') else KNOWN_IDENTS, 'labels': L['labels']}
     raised = [x for x in (obs['extra'].get('closer'), obs['extra'].get('final')) if x not in (None, 'ok')]
     judge = dict(base, k='judge', callers=L['callers'], closedAt=L['closedAt'], slackMs=20, arrivals=L['arrivals'], marginMs=1500,
                  threadErrors=sorted(f'{k}:{v}' for k, v in obs['errors'].items()), disconnectRaised=raised,
